@@ -1,10 +1,13 @@
 '''C04 -- idle means idle: runnable work is released and the pipeline quiesces.'''
+import json
+
+from vlib import core
 from props import sched_common as sc, sched_oracles as so
 
 PID = 'C04'
 META = {
-    'text': 'C04_progress: in every history from boot, a pending target unit whose upstream algorithms are idle for its target and for the all-targets marker is released by the next dispatch (leaves todo, enters doing, a task message is queued or handed out) -- proved from the invariants of C01. All-targets units: partial (released when no upstream node is queued) + refuted witness (a stale queue entry blocks the analysis for ever). Idle => empty queue and empty waiter views: proved for histories without failed/invalid replies and without empty-target requests (C04_idle_empty_partial); refuted in general with two witnesses (open known findings stale-queue-entry, causes purge and empty-target-list). Quiescence is argued from these lemmas, not machine-checked. Model tied to the code by step correspondence; the oracle checks idle=>empty, progress and that no released unit is lost on the implementation at every step; a database that refuses a run id during a dispatch is modelled (Model/SchedFault.v, TickFault k): such a dispatch loses no job (C04_fault_keeps_jobs) and the next ordinary dispatch turns every kept job into messages (C04_dispatch_empties_jobs); fault histories are tied by correspondence and searched by the oracle; the invariant theorems cover fault-free histories (C04_fault_free_is_sched).',
-    'note': 'Trusted: Coq kernel; Sched.v + drive_sched.py correspondence (view_todo/view_doing/crew read from the real functions). Partial: the liveness clause (quiescence, waiters eventually satisfied) is not a theorem; all-targets progress needs the no-stale-entry hypothesis. Open known findings C04/stale-queue-entry (purge; empty-target-list).',
+    'text': 'C04_progress: in every history from boot, a pending target unit whose upstream algorithms are idle for its target and for the all-targets marker is released by the next dispatch (leaves todo, enters doing, a task message is queued or handed out) -- proved from the invariants of C01. All-targets units: partial (released when no upstream node is queued) + refuted witness (a stale queue entry blocks the analysis for ever). Idle => empty queue and empty waiter views: proved for histories without failed/invalid replies and without empty-target requests (C04_idle_empty_partial); refuted in general with two witnesses (open known findings stale-queue-entry, causes purge and empty-target-list). Model tied to the code by step correspondence; the oracle checks idle=>empty, progress and that no released unit is lost on the implementation at every step; a database that refuses a run id during a dispatch is modelled (Model/SchedFault.v, TickFault k): such a dispatch loses no job (C04_fault_keeps_jobs) and the next ordinary dispatch turns every kept job into messages (C04_dispatch_empties_jobs); fault histories are tied by correspondence and searched by the oracle; a history without refused requests is a Sched history (C04_fault_free_is_sched). EXTENSION. Histories with refused run ids (Proofs/SchedFaultInv.v; invariant GInv = node-table length + queue membership + analysis targets, which survives kept jobs; origin invariant for do sets and the job list): C04_progress_faults (a runnable unit is released by the next dispatch even if that dispatch has a request refused: message made, or job held with the target in its do set), C04_progress_after_faults (ordinary dispatch at the end of any such history: message made), C04_progress_all_faults_partial. QUIESCENCE machine-checked as a termination measure (Proofs/SchedQuiesce.v): Phi = sum_x B^(H-depth x) * (2|todo x| + |doing x|) inside a finite target universe U, depth = number of ancestors, B = 2|U|N+1; C04_quiesce_step: every dispatch (with or without refused request) lowers Phi by at least the number of units it released, every reply for a unit the scheduler counts as executing lowers it by at least 1, worker/flag events leave it; C04_quiesce_partial: in any continuation without requests/rebuilds #released units + #replies <= Phi(start) <= N*B^H*3|U|; C04_quiesce_idle_partial: when nothing is executing and a dispatch of the active unpaused pipeline releases nothing, nothing is pending, and with no stale queue entry the queue and both waiter views are empty. Assumed: no feedback edge (gfb = []), depth_okb (checked on every graph the real Construct produced), replies only for units counted as executing, no stale entry for the empty queue (open known findings). Tie: drain histories (tools/harness/drive_quiesce.py drives the real scheduler/farm through drive_sched.py: generated prefix, then only dispatches, registrations and replies for held units) -- correspondence with SchedFault.v, C04 oracle, the inequality of C04_quiesce_step evaluated on the IMPLEMENTATION\'s states at every quiet step, the rest-state conclusion at every rest state reached; Phi of the Coq development is compared with the Python evaluation on a directed history.',
+    'note': 'Trusted: Coq kernel; Sched.v + drive_sched.py correspondence (view_todo/view_doing/crew read from the real functions). Partial: all-targets progress needs the no-stale-entry hypothesis. Open known findings C04/stale-queue-entry (purge; empty-target-list). Quiescence: the measure bounds the work and characterises the rest state; fairness of the environment (workers answer, the dispatcher ticks) is the hypothesis of the property; engines with feedback edges are outside the measure theorem; the empty queue at rest needs the no-stale-entry hypothesis (open known findings).',
     'technique': 'Coq proof (invariants + induction over histories; refutation witnesses by vm_compute) over hand-written executable model + model/implementation correspondence + implementation-side oracle',
 }
 
@@ -25,14 +28,215 @@ def nontrivial(r):
 
 
 def run(ctx):
-    sc.sched_check(
+    results = sc.sched_check(
         ctx, so.c04, ['sched', 'mixed'], nontrivial,
         witnesses=['stale-queue-entry'],
-        rule='(plus fault histories in which the k-th db.next() of a dispatch fails: correspondence with SchedFault.v + oracle) random engines (including analyses downstream of tasks) x random histories with failures, invalid replies and empty target lists; corpus of directed scenarios first. Non-trivial = the history reached an idle state (nothing pending, nothing executing) after >= 1 failed/invalid reply or empty-target request')
-
+        rule='(plus fault histories in which the k-th db.next() of a dispatch fails: correspondence with SchedFault.v + oracle; plus drain histories: a generated prefix followed by dispatches, registrations and replies for held units only -- correspondence with SchedFault.v, the C04 oracle, and the termination measure of C04_quiesce_step evaluated on the implementation\'s own states at every quiet step) random engines (including analyses downstream of tasks) x random histories with failures, invalid replies and empty target lists; corpus of directed scenarios first. Non-trivial = the history reached an idle state (nothing pending, nothing executing) after >= 1 failed/invalid reply or empty-target request')
 
     if not ctx.replay and not ctx.nviol:
         sc.fault_study(ctx, so.c04)
+    if not ctx.replay and not ctx.nviol:
+        level_hypothesis(ctx, results or [])
+        fault_witness(ctx)
+        quiesce_study(ctx)
+
+
+# ---------------------------------------------------------------------------
+# extension: histories with refused run ids (Proofs/SchedFaultInv.v) and the
+# termination measure (Proofs/SchedQuiesce.v)
+# ---------------------------------------------------------------------------
+
+def lvl_ok(g):
+    '''depth_okb of Proofs/SchedQuiesce.v on a graph the REAL dag.Construct made'''
+    for x, nd in enumerate(g['nodes']):
+        for y in nd['kids']:
+            if not len(nd['anc']) < len(g['nodes'][y]['anc']):
+                return False, 'child %s (depth %d) of %s (depth %d)' % (
+                    g['tags'][y], len(g['nodes'][y]['anc']), g['tags'][x], len(nd['anc']))
+        for a in nd['anc']:
+            if not len(g['nodes'][a]['anc']) < len(nd['anc']):
+                return False, 'ancestor %s (depth %d) of %s (depth %d)' % (
+                    g['tags'][a], len(g['nodes'][a]['anc']), g['tags'][x], len(nd['anc']))
+    return True, ''
+
+
+def level_hypothesis(ctx, results):
+    bad = [(r, lvl_ok(r['graph'])[1]) for r in results if not lvl_ok(r['graph'])[0]]
+    ctx.note('quiesce_level_hypothesis', {'graphs_checked': len(results), 'failing': len(bad)})
+    if bad and ctx.nviol == 0:
+        r, why = bad[0]
+        ctx.broken('hypothesis depth_okb of C04_quiesce_partial fails on a graph the real dag.Construct built',
+                   'seed=%s: %s' % (r.get('seed'), why), {'source': 'correspondence', 'case': sc.strip(r)})
+
+
+def xtrace_mismatch(ctx, results):
+    '''correspondence of histories with tickf events with Model/SchedFault.v'''
+    exprs = []
+    for r in results:
+        evs = '[' + '; '.join('(TickFault %d)' % e[1] if e[0] == 'tickf' else '(Ev %s)' % sc.ev_term(e)
+                              for e in r['events']) + ']'
+        exprs.append('obs_xtrace %s %s' % (sc.cfg_term(r['graph']), evs))
+    vals = ctx.coq_eval(['DV.Model.Sched', 'DV.Model.SchedObs', 'DV.Model.SchedFault'], exprs,
+                        z_scope=False, chunk=30)
+    out = []
+    for r, v in zip(results, vals):
+        mm = sc.first_mismatch(r['obs'], [sc.canon_model(t) for t in v])
+        if mm:
+            out.append((r, mm))
+    return out
+
+
+def report_xmismatch(ctx, what, mis):
+    if mis and ctx.nviol == 0:
+        r, (i, keys, a, m) = mis[0]
+        ctx.broken('correspondence %s: model SchedFault.v and implementation disagree' % what,
+                   'case seed=%s step=%d event=%s differing=%s\nimpl=%s\nmodel=%s'
+                   % (r.get('seed'), i, r['events'][i] if i < len(r['events']) else None, keys,
+                      json.dumps(a)[:1500], json.dumps(m)[:1500]),
+                   {'source': 'correspondence', 'step': i, 'case': sc.strip(r, i), 'impl': a, 'model': m})
+
+
+CHAIN2 = {'pkgs': {'p0': {'task': [
+    {'name': 'a0', 'svs': [{'name': 's0', 'vals': [['v0', [1, 0, 0]]]}], 'deps': [], 'fb': []},
+    {'name': 'a1', 'svs': [{'name': 's0', 'vals': [['v0', [1, 0, 0]]]}],
+     'deps': [['alg', 'p0', 'task', 'a0', None, None]], 'fb': []}]}}}
+
+
+def fault_witness(ctx):
+    '''C01_doing_faults_refuted / C03_faults_example replayed on the real farm.dispatch:
+    the observations of the implementation must be those of the model (the
+    witness is a candidate finding reported to the maintainer; it is recorded
+    in the evidence, it is not a verdict of this check)'''
+    cases = [
+        {'seed': 'c01-kept-job-sent-while-ancestor-pending', 'desc': CHAIN2, 'targets': ['T1'], 'nev': 0,
+         'events': [['reg', 1, 0, True], ['org', [1], None, [1]], ['tickf', 1], ['org', [0], None, [1]], ['tick']]},
+        {'seed': 'c03-kept-job-released-twice', 'desc': CHAIN2, 'targets': ['T1', 'T2'], 'nev': 0,
+         'events': [['reg', 1, 0, True], ['org', [0, 1], None, [1]], ['tickf', 2], ['tick']]},
+    ]
+    out = ctx.harness('drive_sched.py', {'cases': cases})
+    res = out['cases']
+    for c, r in zip(cases, res):
+        r['seed'] = c['seed']
+    mis = xtrace_mismatch(ctx, res)
+    report_xmismatch(ctx, 'fault witnesses', mis)
+    r = res[0]
+    last, before = r['obs'][-1], r['obs'][-2]
+    sent = [o for o in last['outs'] if o[0] == 1]
+    reproduces = bool(sent and sent[0][2] == 1 and sent[0][3] == 1 and 1 in before['nodes'][0][0]
+                      and 1 in last['nodes'][0][1] and 0 in r['graph']['nodes'][1]['anc'])
+    ctx.note('c01_fault_witness', {
+        'events': r['events'], 'reproduces_on_implementation': reproduces,
+        'what': 'the job of a1 kept after a refused run id is turned into a task message by the next '
+                'dispatch while its ancestor a0 has the same target pending (before) / executing (after): '
+                'C01_doing_faults_refuted; the release decision itself was safe (C01_doing_faults_partial)'})
+    ctx.count(evaluations=len(cases))
+
+
+def measure(g, ob, U):
+    '''Phi of Proofs/SchedQuiesce.v on an observation of the IMPLEMENTATION'''
+    n = len(g['nodes'])
+    H = 1 + max([len(nd['anc']) for nd in g['nodes']] or [0])
+    B = 2 * len(U) * n + 1
+    return sum(B ** (H - len(g['nodes'][x]['anc']))
+               * (2 * len(set(ob['nodes'][x][0]) & U) + len(set(ob['nodes'][x][1]) & U)) for x in range(n))
+
+
+def quiesce_study(ctx):
+    n = ctx.n(24, 360)
+    cases = [{'seed': '%d:drain:%d' % (ctx.seed, i), 'prefix': 14 + (i % 4) * 6, 'drain': 80,
+              'pprofile': 'fault' if i % 2 else 'sched', 'nalg': 6 if i % 3 else 8,
+              'shape': 'fan' if i % 2 else 'random', 'feedback': i % 6 == 5} for i in range(n)]
+    # directed: C04_quiesce_example on the chain a0 -> a1 -> analysis a2
+    try:
+        d = json.load(open(core.VERIF + '/corpus/sched/c04_analysis_blocked_by_stale.json'))
+        cases.insert(0, {'seed': 'quiesce-directed', 'desc': d['desc'], 'targets': ['T1'], 'drain': 0, 'events': [
+            ['reg', 1, 0, True], ['reg', 2, 0, True], ['reg', 3, 0, True], ['org', [0], None, [1]],
+            ['tickf', 1], ['tick'], ['rep', 1, 0, 1, 1, 3, [[1, 0, True]]], ['tick'],
+            ['rep', 2, 1, 1, 1, 3, [[1, 1, True]]], ['tick'], ['rep', 3, 2, 0, 1, 3, [[0, 2, False]]]]})
+    except OSError:
+        pass
+    out = ctx.harness('drive_quiesce.py', {'cases': cases})
+    results = out['cases']
+    stats = {'histories': len(results), 'quiet_steps_checked': 0, 'replies_checked': 0, 'units_released': 0,
+             'steps_skipped_hypothesis': 0, 'histories_with_feedback_or_bad_depths': 0,
+             'reached_rest': 0, 'rest_with_stale_entry': 0, 'refused_requests': 0}
+    keys = []
+    for c, r in zip(cases, results):
+        r['seed'] = c['seed']
+        g = r['graph']
+        for kind, fields, what, step in so.c04(r):
+            ctx.violation(kind, fields, what, {'source': 'oracle (drain history)', 'step': step,
+                                               'case': sc.strip(r, step)})
+        hyp = (not g['fb']) and lvl_ok(g)[0]
+        if not hyp:
+            stats['histories_with_feedback_or_bad_depths'] += 1
+        U = set(range(len(g['tnames'])))
+        empty = {'nodes': [[[], [], [], 0, None] for _ in g['nodes']], 'flags': [False, True, False], 'que': []}
+        rest = False
+        for i, ev in enumerate(r['events']):
+            bf = r['obs'][i - 1] if i else empty
+            af = r['obs'][i]
+            stats['refused_requests'] += 1 if [10] in af['outs'] else 0
+            k = ev[0]
+            if k in ('org', 'build', 'buildch'):
+                continue
+            if k == 'rep' and ev[3] not in bf['nodes'][ev[2]][1]:
+                continue    # not a unit the scheduler counts as executing: outside quiet_run
+            if not hyp:
+                stats['steps_skipped_hypothesis'] += 1
+            else:
+                released = sum(max(0, len(set(af['nodes'][x][1]) & U) - len(set(bf['nodes'][x][1]) & U))
+                               for x in range(len(g['nodes'])))
+                pb, pa = measure(g, bf, U), measure(g, af, U)
+                stats['quiet_steps_checked'] += 1
+                stats['replies_checked'] += k == 'rep'
+                stats['units_released'] += released
+                if pa + released + (1 if k == 'rep' else 0) > pb:
+                    ctx.violation('measure-not-decreasing', {'event': k},
+                                  'C04_quiesce_step fails on the implementation: Phi before=%d after=%d released=%d event=%s'
+                                  % (pb, pa, released, ev),
+                                  {'source': 'oracle (termination measure)', 'step': i, 'case': sc.strip(r, i)})
+            # the rest state of C04_quiesce_idle_partial, on the implementation
+            if k == 'tick' and i >= r.get('prefix', 0) and bf['flags'][1] and not bf['flags'][2] \
+                    and not any(nd[1] for nd in bf['nodes']) and not any(nd[1] for nd in af['nodes']):
+                rest = True
+                stale = [x for x in bf['que'] if not bf['nodes'][x][0] and not bf['nodes'][x][1]]
+                if stale:
+                    stats['rest_with_stale_entry'] += 1
+                pend = [x for x in range(len(g['nodes'])) if bf['nodes'][x][0]]
+                if lvl_ok(g)[0] and not stale and (pend or bf['que']):
+                    ctx.violation('rest-not-idle', {},
+                                  'nothing executing, a dispatch released nothing, no stale queue entry, yet pending=%s que=%s'
+                                  % (pend, bf['que']),
+                                  {'source': 'oracle (rest state)', 'step': i, 'case': sc.strip(r, i)})
+        if rest:
+            stats['reached_rest'] += 1
+            if any(e[0] == 'rep' and e[5] == 3 and any(v[2] for v in e[6]) for e in r['events'][r.get('prefix', 0):]):
+                keys.append('drain:' + str(r['seed']))
+    mis = xtrace_mismatch(ctx, results)
+    stats['correspondence_mismatches'] = len(mis)
+    report_xmismatch(ctx, 'drain histories', mis)
+    # the measure of the theorem is the measure evaluated above: Phi of the model
+    # on the directed history = measure() on the implementation's observations
+    if results and results[0]['seed'] == 'quiesce-directed' and not mis:
+        r = results[0]
+        c = sc.cfg_term(r['graph'])
+        evs = '[' + '; '.join('(TickFault %d)' % e[1] if e[0] == 'tickf' else '(Ev %s)' % sc.ev_term(e)
+                              for e in r['events']) + ']'
+        try:
+            vals = ctx.coq_eval(['DV.Model.Sched', 'DV.Model.SchedFault', 'DV.Proofs.SchedQuiesce'],
+                                ['map (fun so => Z.of_nat (Phi %s [0; 1] (fst so))) (xtrace %s (init %s) %s)'
+                                 % (c, c, c, evs)], z_scope=False)
+            mine = [measure(r['graph'], ob, {0, 1}) for ob in r['obs']]
+            stats['phi_directed'] = mine
+            if list(vals[0]) != mine and ctx.nviol == 0:
+                ctx.broken('termination measure: Phi of Proofs/SchedQuiesce.v and the measure evaluated on the implementation differ',
+                           'coq=%s python=%s' % (vals[0], mine), {'source': 'correspondence', 'case': sc.strip(r)})
+        except core.CoqEvalError as e:
+            if ctx.nviol == 0:
+                ctx.broken('evaluation of Phi failed', str(e.args[-1])[-1500:], {'source': 'correspondence'})
+    ctx.note('quiesce_study', stats)
+    ctx.count(evaluations=len(results), nontrivial_keys=keys)
 
 
 def replay(ctx, obj):
